@@ -47,6 +47,25 @@ def run(ctx):
     rep.rule("C08.R2", "product rule in actuator Jacobians", 2)
     rep.rule("C08.R3", "subsystem protocol (scalar interface and kinematic calls)", 25)
     rep.rule("C08.R4", "mirror symmetry of TwoPointInteraction glue", 6)
+    rep.rule("C08.R6", "two-body block typing of the scalar-interface derivatives of Revolute / TwoPointInteraction (K9)", 12)
+    rep.rule("C08.R7", "relative polarity of body-2 vs body-1 terms across l_dot, l_q, l_dot_q, l_dot_u, W_l, W_l_q (K9)", 10)
+    from .. import twobody
+    for cname, chain in (("Revolute", ["l_dot", "l_dot_q", "l_dot_u", "l_q", "W_l", "W_l_q"]), ("TwoPointInteraction", ["l_dot", "l_q", "l_dot_q", "l_dot_u", "W_l", "W_l_q", "_n", "_n_q"])):
+        ci = ctx.model.cls(cname)
+        for name in chain:
+            fn = ci.methods.get(name)
+            if fn is None:
+                raise AnalysisError(f"{ci.rel}:{cname}.{name} vanished")
+            twobody.check_typing(rep, "C08.R6", f"{ci.rel}:{cname}.{name}", ci.rel, fn)
+        twobody.check_polarity(rep, "C08.R7", ci, chain)
+    rep.rule("C08.R5", "Leibniz image of the primal's factor monomials equals the derivative routine's monomials (K10)", 8)
+    from .. import support
+    for cname in ("Revolute", "TwoPointInteraction"):
+        ci = ctx.model.cls(cname)
+        view = protocol.ClassView(ctx, ci)
+        for p, d, mode, extra in (("l_dot", "l_dot_q", "q", None), ("l_dot", "l_dot_u", "u", None), ("l_dot", "W_l", "u", None), ("W_l", "W_l_q", "q", None)):
+            c, fn = view.method(d)
+            support.check(rep, "C08.R5", view, f"{ci.rel}:{cname}.{d}", ci.rel, p, d, mode, extra, lineno=getattr(fn, "lineno", 0))
     model = ctx.model
     for rel, cname in CLASSES:
         ci = model.cls(cname, rel)
@@ -155,6 +174,18 @@ MUTANTS = [
          old="        return einsum(\n            \"ijk,j,il->lk\", self.A_IB_q(t, q), self.force(t), self.J_P(t, q)\n        ) + einsum(", new="        return einsum(", expect="C08.R1"),
     dict(id="c08-m10", what="Revolute.l_dot_u loses its u parameter (force laws pass t, q, u)", file=REV,
          old="    def l_dot_u(self, t, q, u):\n        e_c1", new="    def l_dot_u(self, t, q):\n        e_c1", expect="C08.R3"),
+]
+MUTANTS += [
+    dict(id="c08-k10-1", canary=True, what="TwoPointInteraction.W_l_q: the (u2, q2) block contracts the direction with body 1's Jacobian derivative", file=TPI,
+         old="        W_q[nu1:, nq1:] = J_P2.T @ n_q2 + np.einsum(\"i,ijk->jk\", n, J_P2_q)", new="        W_q[nu1:, nq1:] = J_P2.T @ n_q2 + np.einsum(\"i,ijk->jk\", n, J_P1_q)", expect="C08.R5"),
+    dict(id="c08-k10-2", what="Revolute.W_l_q: the (u2, q1) block uses J_R1 instead of J_R2", file=REV,
+         old="        W_angle_q[nu1:, 0, :nq1] = J_R2.T @ e_c1_q1", new="        W_angle_q[nu1:, 0, :nq1] = J_R1.T @ e_c1_q1", expect="C08.R5"),
+]
+MUTANTS += [
+    dict(id="c08-k9-1", canary=True, what="TwoPointInteraction.l_dot_q: sign of the body-2 velocity term flipped", file=TPI,
+         old="        gamma_q[nq1:] = n @ self.v_P2_q(t, q, u) + v_P1P2 @ n_q2", new="        gamma_q[nq1:] = -n @ self.v_P2_q(t, q, u) + v_P1P2 @ n_q2", expect="C08.R7"),
+    dict(id="c08-k9-2", what="Revolute.W_l_q: the J_R2_q2 term is stored in the body-1 coordinate block", file=REV,
+         old="        W_angle_q[nu1:, 0, nq1:] = np.einsum(\"i,ijk->jk\", e_c1, J_R2_q2)", new="        W_angle_q[nu1:, 0, :nq1] += np.einsum(\"i,ijk->jk\", e_c1, J_R2_q2)", expect="C08.R6"),
 ]
 NEUTRAL = [
     dict(id="c08-n1", canary=True, what="la_c_q with locals", file=FB,
